@@ -1048,6 +1048,27 @@ impl ToDec for Mode {
     }
 }
 
+/// a deterministic value of a derived type with `ToDec`, seen from the serializer side (c07typed.rs `dvc`): its `Dec`
+/// string, the serde calls its derived `Serialize` impl makes, and the length hints / variant indices of those calls
+pub fn derived_ser(target: &str, seed: u64) -> Option<(String, crate::c07::SVal, String)> {
+    let mut r = Rng(seed.wrapping_mul(0x2545F4914F6CDD1D) ^ 0x0f1e_2d3c_4b5a_6978);
+    fn pack<T: Serialize + ToDec>(v: T) -> (String, crate::c07::SVal, String) {
+        let (sv, aux) = crate::c07::record_aux(&v);
+        (v.to_dec(), sv, aux)
+    }
+    Some(match target {
+        "config" => pack(g_config(&mut r)),
+        "plain" => pack(g_plain(&mut r)),
+        "dates" => pack(g_dates(&mut r)),
+        "ints" => pack(g_ints(&mut r)),
+        "owner" => pack(Owner { name: g_str(&mut r), dob: g_opt(&mut r, g_dt) }),
+        "mode" => pack(g_mode(&mut r)),
+        "pt" => pack(Pt { x: g_int(&mut r), y: g_int(&mut r) }),
+        "s" => pack(S { when: g_dt(&mut r) }),
+        _ => return None,
+    })
+}
+
 /// the routes of c13typed.rs for a derived type; `true` = a single-value target
 pub fn derived_routes(target: &str, text: &str) -> Option<(bool, Vec<(&'static str, Option<String>)>)> {
     use crate::c13typed::{doc_routes, val_routes, Derived};
